@@ -25,7 +25,7 @@ import (
 type Case struct {
 	Seq    int
 	T      *Term
-	Family string // "exhaustive", "random", or the name of a directed family
+	Family string      // "exhaustive", "random", or the name of a directed family
 	Groups []*EnvGroup // nil: the standard environments
 }
 
@@ -61,16 +61,15 @@ type Violation struct {
 // CheckFn inspects one (program, environment) evaluation.
 type CheckFn func(w *Worker, cr *CaseResult, ir *InstResult) *Violation
 
-
 type Worker struct {
-	eng      *Engine
-	prop     string
-	findings map[string][]Finding
-	counters map[string]int
+	eng       *Engine
+	prop      string
+	findings  map[string][]Finding
+	counters  map[string]int
 	noteLines []string
-	distinct map[uint64]struct{}
-	evals    int
-	executed int
+	distinct  map[uint64]struct{}
+	evals     int
+	executed  int
 	// notes
 	yaeRejects   int
 	refRejects   int
@@ -336,9 +335,9 @@ func checkC01(w *Worker, cr *CaseResult, ir *InstResult) *Violation {
 
 var rootCause = map[string]string{
 	"permuted-object-fields": "set-membership-of-permuted-objects",
-	"num>=2^63":           "number-beyond-int64",
-	"field-order-differs": "object-field-order",
-	"duplicate-key":       "map-literal-duplicate-key",
+	"num>=2^63":              "number-beyond-int64",
+	"field-order-differs":    "object-field-order",
+	"duplicate-key":          "map-literal-duplicate-key",
 }
 
 var rootCauseOrder = []string{"duplicate-key", "field-order-differs", "num>=2^63", "permuted-object-fields"}
@@ -458,6 +457,12 @@ func (w *Worker) report(cs *Case, cr *CaseResult, ir *InstResult, v *Violation, 
 	clause := v.Clause
 	if class == "" {
 		min, clause, class = w.attribute(cs.T, cr.Group, ir.Inst, check, v.Clause)
+	}
+	if clause == "value-defect" {
+		// the symptom is a consequence of a sub-program computing a wrong
+		// value (C04's subject), not of this property's subject
+		w.counters["symptoms-of-a-wrong-value-in-a-sub-program"]++
+		return
 	}
 	key := w.prop + "/" + clause + "/" + class
 	input := cr.Comp.Src + "   | env " + cr.Group.Describe(ir.Inst)
@@ -714,7 +719,7 @@ func MergeResults(r *report.Report, rs []*WorkerResult) {
 			yr, rr, tm, pe, strings.Join(samples, " ;; ")))
 	}
 	if un+bl > 0 {
-		r.Notes = append(r.Notes, fmt.Sprintf("%d evaluations in which the reference semantics leaves the result open (NaN / out-of-int64 conversions, numbers closer than EPS in key or set position, non-absolute time texts): only the clauses that do not need the value were checked there; %d (program, environment group) pairs were not run as a whole because a sub-program yields an ill-typed value (memory-unsafe to consume): the contract was checked on that sub-program instead", un, bl))
+		r.Notes = append(r.Notes, fmt.Sprintf("%d evaluations in which the reference semantics leaves the result open (NaN / out-of-int64 conversions, numbers closer than EPS in key or set position, non-absolute time texts): only the clauses that do not need the value were checked there; %d (program, environment group) pairs were not run as a whole because a sub-program yields an ill-typed value (a C01 violation; yae casts values unchecked, so consuming it can kill the process): where the contract applies to a single program it was checked on that sub-program instead", un, bl))
 	}
 	if len(counters) > 0 {
 		ks := make([]string, 0, len(counters))
